@@ -42,6 +42,10 @@ import (
 //	    chunkings and faults; the expectation is the Go port of JqStream's
 //	    Expected / MustCount / MayCount (cross-checked against TLC's tables on
 //	    every vector of (A)) over encoding/json's value spans.
+//	(E) whole runs (c03run.go; spec/JqStreamRun.tla, spec/MC_StreamRun.tla): every
+//	    program shape x input ending, selector lists x streams, value kinds x
+//	    positions, one or two inputs; stdout / outcome / file named against the
+//	    activations TLC computes; a sample repeated on the binary with files.
 
 const c03File = "in.json"
 const c03Dev = "more-swallows-error"
@@ -1050,6 +1054,14 @@ func checkC03(c *Ctx) {
 	c.Set("vectors", res.Vectors)
 	c.Set("wall_A_s", time.Since(t0).Seconds())
 
+	// ---- (E) whole runs: program shape x selectors x inputs and their endings (JqStreamRun); runs beside
+	// (B), whose TLC runs use one worker.  Family (E) never reports a deviation, so handle is safe to share.
+	runsDone := make(chan struct{})
+	go func() {
+		defer close(runsDone)
+		c03Runs(c, handle)
+	}()
+
 	// the model with the deviation enabled must still satisfy every invariant but FaultReported's strict half
 	// (checked once, small: one-value streams)
 	c.TLC(TLCOpt{Module: "MC_Stream", Workers: 8, Heap: "4g",
@@ -1110,8 +1122,14 @@ func checkC03(c *Ctx) {
 			c.Count("inconclusive", 1)
 			return
 		case "other":
-			if strings.HasPrefix(r.Detail, "single: ") || strings.HasPrefix(r.Detail, "bad trace job") {
+			if strings.HasPrefix(r.Detail, "bad trace job") {
 				infra("c03trace: %s", r.Detail)
+			}
+			if strings.HasPrefix(r.Detail, "single: ") {
+				// a value of the stream, processed as the only value of an input, fails or prints nothing
+				rep["why"] = strings.TrimPrefix(r.Detail, "single: ")
+				c.Violation("single-value", rep)
+				return
 			}
 			c.Violation("trace-class", rep)
 			return
@@ -1223,6 +1241,7 @@ func checkC03(c *Ctx) {
 		}
 	})
 	c.Set("wall_ABselfD_s", time.Since(t0).Seconds())
+	<-runsDone
 
 	// ---- (C) the compiled binary, blocking between values: stdin pipe, named FIFO as a file argument; two inputs
 	nPipe, nTwo := 4, 2
@@ -1239,8 +1258,10 @@ func checkC03(c *Ctx) {
 	c.Set("rule", "TLC enumerates every stream of <= 2 values (thorough: all; quick: a seeded third) and a seeded slice of 3-value streams from 9 value texts x separators, "+
 		"x {no fault, every truncation point, every ioerr position, every single-byte substitution from 7 bytes}, with EVERY chunking in the model; "+
 		"each (stream, fault) is replayed under the boundary-relevant chunkings (one chunk, one byte per read, cuts at/before/after each value end and at the malformed byte, and their pairs); "+
-		"a case is non-trivial when the stream has a value and either a fault/corruption or a second value; distinct by (stream, fault); random traces, large-value streams, pipe / FIFO / two-input runs count as non-trivial")
-	c.Set("checker_cmd", "tlc MC_Stream (invariants + vectors) ; tlc Trace_Stream -workers 1 (POSTCONDITION Accepted); replay through lang.EvalProgram with the scheduled reader; binary over a stdin pipe, a named FIFO argument, and with two inputs")
+		"a case is non-trivial when the stream has a value and either a fault/corruption or a second value; distinct by (stream, fault); random traces, large-value streams, pipe / FIFO / two-input runs count as non-trivial; "+
+		"family E (MC_StreamRun): all 32 program shapes x 12 input endings x one/two inputs, 8 selector lists x streams of 1..3 array values (seeded slice in quick), 12 kinds of top-level value at every position of 1..3-value streams (seeded slice), "+
+		"each run through JqStreamRun's machine and replayed under 3 chunkings; non-trivial when an input is faulty, two values are processed or a selector is used")
+	c.Set("checker_cmd", "tlc MC_Stream (invariants + vectors) ; tlc MC_StreamRun (invariants + vectors) ; tlc Trace_Stream -workers 1 (POSTCONDITION Accepted); replay through lang.EvalProgram with the scheduled reader; binary over a stdin pipe, a named FIFO argument, and with two inputs")
 	c.Set("bounds", map[string]any{"MaxVals": maxVals, "Mod2": mod2, "Mod3": mod3, "Salt": salt, "random_traces": len(ins),
 		"max_random_stream_bytes": maxStream, "max_chunk": maxChunk, "large_value_streams": nBig, "pipe_and_fifo_streams": nPipe, "two_input_runs": nTwo})
 }
@@ -1332,13 +1353,10 @@ func c03Pipe(c *Ctx, rng *rand.Rand, n int) {
 		outs := make([][]byte, nv)
 		okAll := true
 		pool.Map(jobs, func(k int, r Result) {
-			if r.Class != "ok" {
-				okAll = false
-			}
+			okAll = c03SingleOK(c, texts[k], r) && okAll
 			outs[k] = r.Stdout
 		})
 		if !okAll {
-			c.Count("inconclusive", 1)
 			continue
 		}
 		// alternately: stdin from a pipe / a named FIFO passed as a file argument
@@ -1372,6 +1390,21 @@ func c03Pipe(c *Ctx, rng *rand.Rand, n int) {
 }
 
 var c03PipeProg = []byte("ENDFILE { print 'e', json($) }")
+
+// c03SingleOK: r is the run of c03PipeProg on the well-formed value text alone.
+// It must end well and print something (the ENDFILE rule runs once for every value, whatever its kind).
+func c03SingleOK(c *Ctx, text string, r Result) bool {
+	switch {
+	case r.Class == "budget" || r.Class == "timeout":
+		c.Count("inconclusive", 1)
+		return false
+	case r.Class != "ok" || len(r.Stdout) == 0:
+		c.Violation("single-value", map[string]any{"program": string(c03PipeProg), "input": text, "got_class": r.Class, "got_msg": r.ErrMsg,
+			"got_stdout": string(r.Stdout), "why": "a well-formed value as the only value of an input: the run fails or the ENDFILE rule prints nothing"})
+		return false
+	}
+	return true
+}
 
 // fifo == "": the values go to the binary's stdin; else to the named FIFO, which is the binary's only file argument
 func c03PipeOne(c *Ctx, texts []string, outs [][]byte, fifo string) (verdict, why string) {
@@ -1504,11 +1537,10 @@ func c03TwoInputs(c *Ctx, rng *rand.Rand, n int) {
 		outs := make([][]byte, nv)
 		okAll := true
 		pool.Map(jobs, func(k int, r Result) {
-			okAll = okAll && r.Class == "ok"
+			okAll = c03SingleOK(c, texts[k], r) && okAll
 			outs[k] = r.Stdout
 		})
 		if !okAll {
-			c.Count("inconclusive", 1)
 			continue
 		}
 		for _, o := range outs {
